@@ -718,6 +718,14 @@ ldb_remove_obsolete_files(ldb_t *db) {
      are therefore safe to delete while allowing other threads to proceed. */
   ldb_mutex_unlock(&db->mutex);
 
+  /* Whatever supersedes these files (new tables, a CURRENT switch) must be
+     durable in the directory before they go: after a power failure an old
+     CURRENT must never be left with logs whose unsynced contents are the
+     only copy of writes whose log we already asked to remove. If the
+     directory cannot be synced, keep the files for the next round. */
+  if (to_delete.length > 0 && ldb_sync_dir(db->dbname) != LDB_OK)
+    to_delete.length = 0;
+
   for (i = 0; i < (int)to_delete.length; i++) {
     const char *filename = to_delete.items[i];
 
